@@ -1762,6 +1762,7 @@ fn main() {
     );
     run.assume("the reference handler (harness/src/refcrypt.rs) is an independent reading of ISO 32000-1 7.6 / ISO 32000-2 7.6; its primitives are checked against FIPS/RFC known answers, RC4 against RFC 6229, and it round-trips on itself; no third-party encrypted PDF was available offline to anchor it further");
     run.assume("conforming permission words only (bits 7-8 and 13-32 set, bits 1-2 clear); passwords for R <= 4 are restricted to PDFDocEncoding characters (what the standard leaves undefined is C05's nonlatin-password-collapse)");
+    run.assume("PDFDocEncoding is ISO 32000-1 Table D.2: 232 defined cells (TAB, LF, CR, 0x18-0x1F, 0x20-0x7E, 0x80-0x9E, 0xA0, 0xA1-0xFF without 0xAD); the reference's character-to-code function is cross-checked at start-up against a second table written by code, in both directions, over the whole Basic Multilingual Plane");
     run.assume("an empty owner password for R <= 4 means 'no owner password' (Algorithm 3 step a): the user password then opens the document in the owner role");
     run.assume("CFM /None and the predefined /Identity filter mean 'no encryption' (as in every reader known to the author); V4 uses a 128-bit file key whether or not /Length is written (ISO 32000 Table 20: Length applies to V 2 and 3)");
     run.assume("revisions <= 4 are combined only with an /ID whose first element is a string (Algorithm 2 hashes it; ISO 32000-1 requires /ID in an encrypted document); revisions 5 and 6 never use the identifier and are combined with every shape");
